@@ -1432,6 +1432,15 @@ Proof.
   rewrite (env_store_complete s vals cur r' Hin (Hatt _ Ha)). apply on_eqb_refl.
 Qed.
 
+(* the skip / validate check, the stored hash and the command read the tracked variables from the same
+   mapping: with an unchanged environment the check recomputes the recorded ingredients *)
+Theorem digest_env_consistent (os_env infra : str -> option N) (names : list str) :
+  digest_env gen_digest_env_source_check os_env infra names =
+  digest_env gen_digest_env_source_stored os_env infra names /\
+  digest_env gen_digest_env_source_stored os_env infra names =
+  digest_env gen_command_env_source os_env infra names.
+Proof. split; reflexivity. Qed.
+
 Lemma env_rule_tie : gen_env_rescan_stores_seen_value = true /\
                      existsb (N.eqb (fstate_code FUnconfirmed)) gen_confirmation_kept_states
                      = gen_drops_stale_confirmation.
